@@ -1,5 +1,166 @@
 package main
 
+// Property → rules map (DESIGN.md §4).  A rule shared by several properties is evaluated once per
+// invocation and filtered to the routes the property quantifies over.
+
+import "strings"
+
+func scope(ss ...string) func(Ob) bool {
+	return func(o Ob) bool {
+		for _, s := range ss {
+			if o.Scope == s {
+				return true
+			}
+		}
+		return false
+	}
+}
+
+func funcHas(subs ...string) func(Ob) bool {
+	return func(o Ob) bool {
+		for _, s := range subs {
+			if strings.Contains(o.Func, s) {
+				return true
+			}
+		}
+		return false
+	}
+}
+
+func role(rs ...string) func(Ob) bool {
+	return func(o Ob) bool {
+		for _, r := range rs {
+			if o.Role == r || strings.HasPrefix(o.Role, r) {
+				return true
+			}
+		}
+		return false
+	}
+}
+
+func and(fs ...func(Ob) bool) func(Ob) bool {
+	return func(o Ob) bool {
+		for _, f := range fs {
+			if !f(o) {
+				return false
+			}
+		}
+		return true
+	}
+}
+
+func or(fs ...func(Ob) bool) func(Ob) bool {
+	return func(o Ob) bool {
+		for _, f := range fs {
+			if f(o) {
+				return true
+			}
+		}
+		return false
+	}
+}
+
+func not(f func(Ob) bool) func(Ob) bool { return func(o Ob) bool { return !f(o) } }
+
+func cfgIs(c string) func(Ob) bool { return func(o Ob) bool { return o.Cfg == c } }
+
+var pipelineFuncs = funcHas("Pipeline", "gtree.split", "gtree.sendErr", "handlePipelineErr")
+
 func init() {
-	props["C14"] = &PropSpec{ID: "C14", Uses: []Use{{Rule: "ERR-1"}, {Rule: "ERR-2"}, {Rule: "ERR-3"}}, Decides: "tbd", NotDecided: "tbd"}
+	lib := scope("lib", "markdown")
+
+	props["C14"] = &PropSpec{ID: "C14",
+		Uses: []Use{
+			{Rule: "ERR-1", Filter: lib},
+			{Rule: "ERR-2", Floors: map[string]int{"sink:defaultSpreaderSimple": 1, "sink:defaultGrowSpreaderSimple": 1, "sink:colorizeSpreaderSimple": 2, "sink:formattedSpreaderSimple": 2, "sink:formattedSpreaderPipeline": 1, "sink:colorizeSpreaderPipeline": 2, "sink:defaultSpreader": 2, "sink:jsonSpreader": 1}},
+			{Rule: "ERR-3", Floors: map[string]int{"scan": 5}},
+			{Rule: "EFF-8", Filter: role("writer")},
+		},
+		Decides:    "every error value produced on a library path (every write to the caller's io.Writer, every bufio.Scanner, every stage error channel) is propagated unchanged or wrapped with %w up to the API result — none is dropped, merely tested, or replaced; every Scan loop is followed by Err() on the same scanner; the CLI hands os.Stdout/color.Output to the library unwrapped.",
+		NotDecided: "short writes that report n < len(p) with a nil error; encoders swallowing errors internally; that errors.Is actually matches at run time (only SSA identity / %w wrapping of the propagated value is checked).",
+	}
+	props["C11"] = &PropSpec{ID: "C11",
+		Uses: []Use{
+			{Rule: "CONC-1", Floors: map[string]int{"select-send": 5, "select-recv": 8, "send-plain": 3}},
+			{Rule: "CONC-2", Floors: map[string]int{"chan": 14}},
+			{Rule: "CONC-3", Floors: map[string]int{"operation": 8, "stage": 10, "collector": 1}},
+			{Rule: "CONC-4", Floors: map[string]int{"worker": 6, "access": 5}},
+			{Rule: "ERR-1", Filter: and(lib, pipelineFuncs)},
+		},
+		Decides:    "no channel operation of the massive mode can block forever once the operation's context is cancelled (every send/select/receive has a ctx.Done() alternative or is a single send into a buffered channel); the context every stage waits on is the one derived and cancelled (deferred) by the operation; the error collector waits on the errgroup's context so the first error releases the rest; channels are closed once by their owner after its workers were joined; fields shared by concurrently running workers are written only under the owner's mutex.",
+		NotDecided: "'bounded time' as a number; readers/writers/callbacks supplied by the user that block forever; fairness; that no goroutine remains at the very instant of return (they terminate after cancel, asynchronously); races on objects the user supplies.",
+	}
+	props["C12"] = &PropSpec{ID: "C12",
+		Uses: []Use{
+			{Rule: "NIL-1", Floors: map[string]int{"handover-chan": 6, "handover-seq": 8, "handover-return": 2}},
+			{Rule: "NIL-3", Floors: map[string]int{"massive": 1, "iter": 2}},
+			{Rule: "NIL-4", Floors: map[string]int{"bce": 8, "assert": 5, "div": 2}},
+			{Rule: "EFF-7"},
+			{Rule: "CONC-2"},
+			{Rule: "CONC-3", Filter: role("collector")},
+			{Rule: "ERR-3"},
+		},
+		Decides:    "no nil *Node crosses a channel, iterator or return hand-over to a consumer that dereferences it (producers prove node≠nil or err≠nil; consumers test err first); massive mode always comes with a non-nil context and the nil pipeline iterator is never selected; every index/slice the compiler cannot prove, every non-comma-ok assertion and integer division is guarded or covered by a named invariant; no explicit panic, os.Exit or log.Fatal in the library; no double close / send on closed channel; over-long lines surface as the scanner's error.",
+		NotDecided: "termination in general (scanner loops end with the reader; only the error collector's release is checked), stack depth on very deep trees, memory exhaustion, panics inside third-party encoders, nil-pointer safety of values other than *Node hand-overs.",
+	}
+	props["C10"] = &PropSpec{ID: "C10",
+		Uses: []Use{
+			{Rule: "CONC-5", Floors: map[string]int{"critical": 1}},
+			{Rule: "CONC-6"},
+			{Rule: "CONC-4", Filter: role("access", "init")},
+			{Rule: "NIL-1", Filter: role("handover-chan")},
+			{Rule: "ERR-1", Filter: and(lib, pipelineFuncs)},
+		},
+		Decides:    "each root is written under one critical section held in the worker frame (no per-line locking writer); workers share no unsynchronised state and no state learnt from other roots (reported as known finding F10 for the shared Markdown parser); every parsed root is forwarded non-nil; an error in any stage reaches the result.",
+		NotDecided: "equality of massive and simple results as values; interleavings beyond lock/ownership discipline; agreement of splitter and parser on which lines are roots for '#' documents (root cause of the known finding).",
+	}
+	props["C07"] = &PropSpec{ID: "C07",
+		Uses: []Use{
+			{Rule: "EFF-4", Floors: map[string]int{"gate": 6, "validate": 2, "validate-call": 1, "encode": 12, "forward": 1}},
+			{Rule: "EFF-5", Floors: map[string]int{"path": 3, "target": 2}},
+			{Rule: "EFF-2"},
+			{Rule: "EFF-3", Filter: role("cli-gate")},
+		},
+		Decides:    "on all mkdir and verify routes (Markdown/root × simple/massive) name validation is switched on before growing, the stage runs only after growing succeeded, validatePath rejects '/' in names and invalid paths and is guarded by nothing but the validation flag, the grower is never the no-op on these routes, every filesystem path is filepath.Join(targetDir, node path) with targetDir fed from WithTargetDir, and creation happens only inside the mkdirer.",
+		NotDecided: "what path.Join / fs.ValidPath accept as values (a child named '.' or a '..' that path.Join resolves inside the tree passes validation), symlink escapes, OS behaviour.",
+	}
+	props["C09"] = &PropSpec{ID: "C09",
+		Uses: []Use{
+			{Rule: "EFF-1", Filter: role("entry-readonly", "cli-readonly")},
+			{Rule: "EFF-3", Floors: map[string]int{"gate": 4, "cli-gate": 2}},
+			{Rule: "EFF-2"},
+		},
+		Decides:    "no filesystem-mutating call is reachable from Output* (the CLI's dry-run route), and on every Mkdir* route every path to a creating call crosses the false side of a branch on the dry-run option; the CLI's mkdir reaches creation only on the false side of --dry-run and rejects stray arguments first; constructors and other shared code contain no filesystem mutation.",
+		NotDecided: "numeric equality of the reported counts with what a real run creates; colour escape sequences; 'rejects iff the real run rejects' beyond sharing the validation gate (C07).",
+	}
+	props["C06"] = &PropSpec{ID: "C06",
+		Uses: []Use{
+			{Rule: "EFF-6", Floors: map[string]int{"exists": 2}},
+			{Rule: "EFF-2", Floors: map[string]int{"site": 2}},
+			{Rule: "EFF-5", Filter: funcHas("Mkdirer")},
+			{Rule: "ERR-1", Filter: funcHas("Mkdirer", "mkdir")},
+		},
+		Decides:    "every creating call is dominated by the not-exists side of a test that stats every root and whose exists side yields the path-exists error; creation happens only in the mkdirer; created paths are Join(targetDir, node path); every filesystem error (MkdirAll, Create, Close) is returned.",
+		NotDecided: "the exact set of entries created for every forest, file-vs-directory choice as a value (see TAB-3 when claimed), OS refusals, pre-existing state other than roots.",
+	}
+	props["C08"] = &PropSpec{ID: "C08",
+		Uses: []Use{
+			{Rule: "EFF-1", Filter: and(role("entry-readonly", "cli-readonly"), funcHas("Verify", "actionVerify"))},
+			{Rule: "EFF-4", Filter: and(role("gate", "encode"), funcHas("erify"))},
+			{Rule: "EFF-5", Filter: funcHas("Verifier")},
+			{Rule: "ERR-1", Filter: funcHas("Verifier", "verify")},
+		},
+		Decides:    "verify never reaches a filesystem-mutating call; names are validated and paths assembled before verifying; looked-up paths are Join(targetDir, node path) like the mkdirer's; walk errors are returned.",
+		NotDecided: "soundness/completeness of the reported path sets for every directory state, the 'first root that differs' listing, map-iteration order of the report.",
+	}
+	props["C16"] = &PropSpec{ID: "C16",
+		Uses: []Use{
+			{Rule: "ERR-1", Filter: scope("cli")},
+			{Rule: "EFF-8", Floors: map[string]int{"stdout": 3, "writer": 2}},
+			{Rule: "EFF-1", Filter: role("cli-readonly")},
+			{Rule: "EFF-3", Filter: role("cli-gate")},
+		},
+		Decides:    "every error from a library call, os.Open, option parsing and the template printer in package main is returned (wrapped by an exit-coder); package main prints nothing itself on the output/mkdir/verify routes and hands os.Stdout/color.Output to the library unwrapped; read-only subcommands reach no mutation; mkdir creates only without --dry-run and rejects stray arguments.",
+		NotDecided: "urfave/cli's own parsing, the rendered text of `template | output`, closed-stdout semantics of the OS.",
+	}
 }
